@@ -6,7 +6,7 @@ from checklib import cbytes, cbool, clist, cpair, cN, copt
 
 ID = "C08"
 HARNESS = "c08"
-N_CASES = {"quick": 24, "thorough": 400}
+N_CASES = {"quick": 20, "thorough": 400}
 N_SEARCH = {"quick": 1, "thorough": 2}
 SHARD = 12
 HAS_MODEL_OUT = True
